@@ -16,7 +16,8 @@ import (
 	"github.com/yorkie-team/yorkie/server/backend"
 	"github.com/yorkie-team/yorkie/server/backend/database"
 	"github.com/yorkie-team/yorkie/server/backend/database/memory"
-	"github.com/yorkie-team/yorkie/server/backend/sync"
+	"github.com/yorkie-team/yorkie/server/logging"
+	"github.com/yorkie-team/yorkie/server/profiling/prometheus"
 )
 
 const (
@@ -36,11 +37,10 @@ type vWorld struct {
 func vNewWorld() *vWorld {
 	db, err := memory.New()
 	zzvsym.Assert(err == nil, "memdb-new-no-error")
-	be := &backend.Backend{
-		Config:  &backend.Config{Hostname: "h"},
-		DB:      db,
-		Lockers: sync.New(),
-	}
+	logging.DefaultLogger() // natively: initialise the default logger that logging.From falls back to
+	metrics, err := prometheus.NewMetrics()
+	zzvsym.Assert(err == nil, "metrics-new-no-error")
+	be := backend.VerifNewBackend(&backend.Config{Hostname: "h"}, db, metrics)
 	return &vWorld{
 		be:      be,
 		db:      db,
